@@ -317,7 +317,7 @@ def _r2_new_turns_core(ctx, prog):
             return "T"
         if z == LEN_S:
             return "N"
-        if isinstance(z, tuple) and z and (z[0] in ("call", "m", "at", "attr", "phi", "where", "self", "p", "?") or
+        if isinstance(z, tuple) and z and (z[0] in ("call", "m", "at", "attr", "phi", "ite", "where", "self", "p", "?", "cmp", "bool", "u") or
                                            (z[0] == "c" and not isinstance(z[1], (int, float)))):
             return opaque.setdefault(z, "X%d" % (len(opaque) + 1))      # anything else is an opaque quantity
         return None
